@@ -276,6 +276,24 @@ int main(int argc, char** argv)
     // (b) chains
     int chains = mon::tier(4000, 200000);
     std::set<std::string> shapes;
+    // directed prelude: a function pointer (the address of a sandbox function, or one loaded from a cell) cast to a data
+    // pointer.  The application-side value of a tainted function pointer is not an address in sandbox memory.
+    for (auto& inp : live) {
+      Inst& in = *inp;
+      mon::ctx("chain/cast | directed function pointer to data pointer");
+      uintptr_t next = 0;
+      bool ab = mon::aborts([&] {
+        auto fa = in.sb->template INTERNAL_get_sandbox_function_name<int(int)>("deref");
+        auto dp = sandbox_reinterpret_cast<unsigned char*>(fa);
+        next = reinterpret_cast<uintptr_t>(dp.UNSAFE_unverified());
+      });
+      mon::evals();
+      if (ab) { n_abort++; continue; }
+      if (!chk(in, next))
+        report("cast", "function-pointer-to-data-pointer/outside-without-abort",
+               mon::fmt("%s: sandbox_reinterpret_cast<unsigned char*>(tainted<int(*)(int)> address of a sandbox function) is the tainted data pointer %p (%s); *p, p[1], p+16 and rlbox::memcpy from it are accepted",
+                        Cfg::name, (void*)next, whose(next)));
+    }
     // directed prelude: address-of every field of a struct pointer whose
     // pointee straddles the region end (address computation only, no access)
     for (auto& inp : live) {
